@@ -106,7 +106,10 @@ pub fn main(args: &[String]) -> i32 {
             ("accept", None) => Err((format!("{}: canonical encoding rejected", ty), json!("accept"), json!(hex::encode(&bytes)))),
             (_, None) => Ok(()),
             (e, Some(d)) => {
-                if e == "accept" || v["class"].as_str().map(|c| !c.starts_with("unordered")).unwrap_or(true) {
+                // the default BTreeSet / BTreeMap readers are documented not to check the order of their input, so only
+                // canonical vectors of these two types are required to re-encode identically
+                let order_free = ty == "SetU8" || ty == "MapU8U16";
+                if e == "accept" || !order_free {
                     if d.reenc[..] != bytes[..d.consumed.min(bytes.len())] {
                         return Err((format!("{}: accepted input does not re-encode to the consumed bytes", ty), json!(hex::encode(&bytes[..d.consumed.min(bytes.len())])), json!(hex::encode(&d.reenc))));
                     }
